@@ -70,6 +70,8 @@ def failing_iter(ch, spec):
     if not spec.srcs or spec.p.get("alias") or (spec.tool == "chain" and spec.p.get("form") == 2):
         return
     p = spec.srcs[ch.draw(len(spec.srcs))]
+    if spec.tool == "tee":
+        spec.p["carry_on"] = False
     p.flavour = _ITER_FAULT_FLAVOURS[ch.draw(len(_ITER_FAULT_FLAVOURS))]
     p.iter_fault = FAULT_TYPES[ch.draw(len(FAULT_TYPES))]
 
